@@ -1,0 +1,851 @@
+//! Simulation seam for deterministic simulation testing.
+//!
+//! Compiled only with `--cfg pasfmt_verif`; the shipped crate never sees this file.
+//!
+//! With the guard on, `lib.rs` compiles the unmodified `file_formatter.rs` inside a module in
+//! which the names `std` and `rayon` resolve to [`shadow::std`] and [`shadow::rayon`]. Those are
+//! the real crates except for the few items that touch the outside world (files, stdin/stdout,
+//! the thread pool), which forward every call to a [`World`] installed by the test harness.
+//! Nothing in here decides anything: all behaviour (file contents, faults, scheduling) lives in
+//! the installed [`World`].
+
+use ::std::{
+    fmt,
+    io::{self, Read, Seek, SeekFrom, Write},
+    ops::Range,
+    path::{Path, PathBuf},
+    sync::OnceLock,
+};
+
+#[derive(Clone, Debug, Default, PartialEq, Eq)]
+pub struct OpenFlags {
+    pub read: bool,
+    pub write: bool,
+    pub append: bool,
+    pub truncate: bool,
+    pub create: bool,
+    pub create_new: bool,
+}
+
+pub type Handle = u64;
+
+/// Everything the orchestrator's I/O layer can observe or affect.
+pub trait World: Send + Sync {
+    fn argv(&self) -> Option<Vec<String>>;
+
+    fn open(&self, path: &Path, flags: &OpenFlags) -> io::Result<Handle>;
+    fn read(&self, h: Handle, buf: &mut [u8]) -> io::Result<usize>;
+    fn write(&self, h: Handle, buf: &[u8]) -> io::Result<usize>;
+    fn flush(&self, h: Handle) -> io::Result<()>;
+    fn seek(&self, h: Handle, pos: SeekFrom) -> io::Result<u64>;
+    fn set_len(&self, h: Handle, len: u64) -> io::Result<()>;
+    fn sync(&self, h: Handle) -> io::Result<()>;
+    fn file_len(&self, h: Handle) -> io::Result<u64>;
+    fn close(&self, h: Handle);
+
+    fn path_len(&self, path: &Path) -> io::Result<u64>;
+    fn rename(&self, from: &Path, to: &Path) -> io::Result<()>;
+    fn remove_file(&self, path: &Path) -> io::Result<()>;
+
+    fn stdin_read(&self, buf: &mut [u8]) -> io::Result<usize>;
+    fn stdin_is_terminal(&self) -> bool;
+    fn stdout_write(&self, buf: &[u8]) -> io::Result<usize>;
+    fn stdout_flush(&self) -> io::Result<()>;
+    fn stdout_is_terminal(&self) -> bool;
+    /// `stdout().lock()`: returns once the calling thread holds the (simulated) stdout lock.
+    fn stdout_lock(&self);
+    fn stdout_unlock(&self);
+    /// One `print!`: atomic with respect to other threads, like std's.
+    fn stdout_print(&self, text: &str) -> io::Result<()>;
+    /// One `eprintln!` (text without the trailing newline).
+    fn stderr_line(&self, text: &str);
+
+    /// Runs `job` over a partition of `0..n` into contiguous ranges, on whichever (simulated)
+    /// pool threads and in whichever order the world decides. Returns when all are done.
+    fn par_execute(&self, n: usize, job: &(dyn Fn(Range<usize>) + Sync));
+    /// A point at which the world may switch to another pool thread.
+    fn yield_point(&self, tag: &'static str);
+}
+
+static WORLD: OnceLock<Box<dyn World>> = OnceLock::new();
+
+/// Installs the world for this process. Returns false if one was already installed.
+pub fn install(world: Box<dyn World>) -> bool {
+    WORLD.set(world).is_ok()
+}
+
+pub fn try_world() -> Option<&'static dyn World> {
+    WORLD.get().map(|w| &**w)
+}
+
+pub fn world() -> &'static dyn World {
+    try_world().expect("pasfmt_verif: no simulated world installed")
+}
+
+pub fn argv() -> Option<Vec<String>> {
+    try_world().and_then(|w| w.argv())
+}
+
+pub fn stdout_print(args: fmt::Arguments) {
+    let text = args.to_string();
+    if let Err(e) = world().stdout_print(&text) {
+        panic!("failed printing to stdout: {e}");
+    }
+}
+
+pub fn stderr_line(args: fmt::Arguments) {
+    world().stderr_line(&args.to_string());
+}
+
+// region: std::fs
+
+pub struct Metadata {
+    len: u64,
+}
+impl Metadata {
+    #[allow(clippy::len_without_is_empty)]
+    pub fn len(&self) -> u64 {
+        self.len
+    }
+    pub fn is_file(&self) -> bool {
+        true
+    }
+    pub fn is_dir(&self) -> bool {
+        false
+    }
+}
+
+#[derive(Debug)]
+pub struct File {
+    h: Handle,
+}
+
+impl File {
+    pub fn open<P: AsRef<Path>>(path: P) -> io::Result<File> {
+        OpenOptions::new().read(true).open(path)
+    }
+    pub fn create<P: AsRef<Path>>(path: P) -> io::Result<File> {
+        OpenOptions::new()
+            .write(true)
+            .create(true)
+            .truncate(true)
+            .open(path)
+    }
+    pub fn create_new<P: AsRef<Path>>(path: P) -> io::Result<File> {
+        OpenOptions::new()
+            .read(true)
+            .write(true)
+            .create_new(true)
+            .open(path)
+    }
+    pub fn options() -> OpenOptions {
+        OpenOptions::new()
+    }
+    pub fn set_len(&self, size: u64) -> io::Result<()> {
+        world().set_len(self.h, size)
+    }
+    pub fn sync_all(&self) -> io::Result<()> {
+        world().sync(self.h)
+    }
+    pub fn sync_data(&self) -> io::Result<()> {
+        world().sync(self.h)
+    }
+    pub fn metadata(&self) -> io::Result<Metadata> {
+        world().file_len(self.h).map(|len| Metadata { len })
+    }
+}
+
+impl Drop for File {
+    fn drop(&mut self) {
+        world().close(self.h);
+    }
+}
+
+impl Read for File {
+    fn read(&mut self, buf: &mut [u8]) -> io::Result<usize> {
+        world().read(self.h, buf)
+    }
+}
+impl Read for &File {
+    fn read(&mut self, buf: &mut [u8]) -> io::Result<usize> {
+        world().read(self.h, buf)
+    }
+}
+impl Write for File {
+    fn write(&mut self, buf: &[u8]) -> io::Result<usize> {
+        world().write(self.h, buf)
+    }
+    fn flush(&mut self) -> io::Result<()> {
+        world().flush(self.h)
+    }
+}
+impl Write for &File {
+    fn write(&mut self, buf: &[u8]) -> io::Result<usize> {
+        world().write(self.h, buf)
+    }
+    fn flush(&mut self) -> io::Result<()> {
+        world().flush(self.h)
+    }
+}
+impl Seek for File {
+    fn seek(&mut self, pos: SeekFrom) -> io::Result<u64> {
+        world().seek(self.h, pos)
+    }
+}
+impl Seek for &File {
+    fn seek(&mut self, pos: SeekFrom) -> io::Result<u64> {
+        world().seek(self.h, pos)
+    }
+}
+
+#[derive(Clone, Debug, Default)]
+pub struct OpenOptions(OpenFlags);
+
+impl OpenOptions {
+    #[allow(clippy::new_without_default)]
+    pub fn new() -> Self {
+        OpenOptions(OpenFlags::default())
+    }
+    pub fn read(&mut self, v: bool) -> &mut Self {
+        self.0.read = v;
+        self
+    }
+    pub fn write(&mut self, v: bool) -> &mut Self {
+        self.0.write = v;
+        self
+    }
+    pub fn append(&mut self, v: bool) -> &mut Self {
+        self.0.append = v;
+        self
+    }
+    pub fn truncate(&mut self, v: bool) -> &mut Self {
+        self.0.truncate = v;
+        self
+    }
+    pub fn create(&mut self, v: bool) -> &mut Self {
+        self.0.create = v;
+        self
+    }
+    pub fn create_new(&mut self, v: bool) -> &mut Self {
+        self.0.create_new = v;
+        self
+    }
+    pub fn open<P: AsRef<Path>>(&self, path: P) -> io::Result<File> {
+        world().open(path.as_ref(), &self.0).map(|h| File { h })
+    }
+}
+
+pub fn read<P: AsRef<Path>>(path: P) -> io::Result<Vec<u8>> {
+    let mut out = Vec::new();
+    File::open(path)?.read_to_end(&mut out)?;
+    Ok(out)
+}
+
+pub fn read_to_string<P: AsRef<Path>>(path: P) -> io::Result<String> {
+    let mut out = String::new();
+    File::open(path)?.read_to_string(&mut out)?;
+    Ok(out)
+}
+
+pub fn write<P: AsRef<Path>, C: AsRef<[u8]>>(path: P, contents: C) -> io::Result<()> {
+    File::create(path)?.write_all(contents.as_ref())
+}
+
+pub fn metadata<P: AsRef<Path>>(path: P) -> io::Result<Metadata> {
+    world().path_len(path.as_ref()).map(|len| Metadata { len })
+}
+
+pub fn rename<P: AsRef<Path>, Q: AsRef<Path>>(from: P, to: Q) -> io::Result<()> {
+    world().rename(from.as_ref(), to.as_ref())
+}
+
+pub fn remove_file<P: AsRef<Path>>(path: P) -> io::Result<()> {
+    world().remove_file(path.as_ref())
+}
+
+pub fn copy<P: AsRef<Path>, Q: AsRef<Path>>(from: P, to: Q) -> io::Result<u64> {
+    let data = read(from)?;
+    write(to, &data)?;
+    Ok(data.len() as u64)
+}
+
+pub fn canonicalize<P: AsRef<Path>>(path: P) -> io::Result<PathBuf> {
+    Ok(path.as_ref().to_path_buf())
+}
+
+// endregion: std::fs
+
+// region: std::io::{stdin, stdout}
+
+pub trait IsTerminal {
+    fn is_terminal(&self) -> bool;
+}
+
+pub struct Stdin;
+pub struct StdinLock;
+
+pub fn stdin() -> Stdin {
+    Stdin
+}
+impl Stdin {
+    pub fn lock(&self) -> StdinLock {
+        StdinLock
+    }
+}
+impl Read for Stdin {
+    fn read(&mut self, buf: &mut [u8]) -> io::Result<usize> {
+        world().stdin_read(buf)
+    }
+}
+impl Read for StdinLock {
+    fn read(&mut self, buf: &mut [u8]) -> io::Result<usize> {
+        world().stdin_read(buf)
+    }
+}
+impl IsTerminal for Stdin {
+    fn is_terminal(&self) -> bool {
+        world().stdin_is_terminal()
+    }
+}
+impl IsTerminal for StdinLock {
+    fn is_terminal(&self) -> bool {
+        world().stdin_is_terminal()
+    }
+}
+
+pub struct Stdout;
+pub struct StdoutLock(());
+
+pub fn stdout() -> Stdout {
+    Stdout
+}
+impl Stdout {
+    pub fn lock(&self) -> StdoutLock {
+        world().stdout_lock();
+        StdoutLock(())
+    }
+}
+impl Drop for StdoutLock {
+    fn drop(&mut self) {
+        world().stdout_unlock();
+    }
+}
+impl Write for Stdout {
+    fn write(&mut self, buf: &[u8]) -> io::Result<usize> {
+        let _lock = self.lock();
+        world().stdout_write(buf)
+    }
+    fn flush(&mut self) -> io::Result<()> {
+        world().stdout_flush()
+    }
+}
+impl Write for StdoutLock {
+    fn write(&mut self, buf: &[u8]) -> io::Result<usize> {
+        world().stdout_write(buf)
+    }
+    fn flush(&mut self) -> io::Result<()> {
+        world().stdout_flush()
+    }
+}
+impl IsTerminal for Stdout {
+    fn is_terminal(&self) -> bool {
+        world().stdout_is_terminal()
+    }
+}
+impl IsTerminal for StdoutLock {
+    fn is_terminal(&self) -> bool {
+        world().stdout_is_terminal()
+    }
+}
+impl IsTerminal for File {
+    fn is_terminal(&self) -> bool {
+        false
+    }
+}
+
+// endregion: std::io::{stdin, stdout}
+
+// region: std::sync (locks that hand the baton back to the scheduler while they wait)
+
+pub mod sync {
+    use super::world;
+    use ::std::sync::{LockResult, MutexGuard, RwLockReadGuard, RwLockWriteGuard, TryLockError};
+
+    #[derive(Debug, Default)]
+    pub struct Mutex<T>(::std::sync::Mutex<T>);
+    impl<T> Mutex<T> {
+        pub const fn new(t: T) -> Self {
+            Mutex(::std::sync::Mutex::new(t))
+        }
+        pub fn lock(&self) -> LockResult<MutexGuard<'_, T>> {
+            loop {
+                match self.0.try_lock() {
+                    Ok(g) => return Ok(g),
+                    Err(TryLockError::Poisoned(p)) => return Err(p),
+                    Err(TryLockError::WouldBlock) => world().yield_point("mutex_wait"),
+                }
+            }
+        }
+        pub fn into_inner(self) -> LockResult<T> {
+            self.0.into_inner()
+        }
+        pub fn get_mut(&mut self) -> LockResult<&mut T> {
+            self.0.get_mut()
+        }
+    }
+
+    #[derive(Debug, Default)]
+    pub struct RwLock<T>(::std::sync::RwLock<T>);
+    impl<T> RwLock<T> {
+        pub const fn new(t: T) -> Self {
+            RwLock(::std::sync::RwLock::new(t))
+        }
+        pub fn read(&self) -> LockResult<RwLockReadGuard<'_, T>> {
+            loop {
+                match self.0.try_read() {
+                    Ok(g) => return Ok(g),
+                    Err(TryLockError::Poisoned(p)) => return Err(p),
+                    Err(TryLockError::WouldBlock) => world().yield_point("rwlock_wait"),
+                }
+            }
+        }
+        pub fn write(&self) -> LockResult<RwLockWriteGuard<'_, T>> {
+            loop {
+                match self.0.try_write() {
+                    Ok(g) => return Ok(g),
+                    Err(TryLockError::Poisoned(p)) => return Err(p),
+                    Err(TryLockError::WouldBlock) => world().yield_point("rwlock_wait"),
+                }
+            }
+        }
+        pub fn into_inner(self) -> LockResult<T> {
+            self.0.into_inner()
+        }
+    }
+}
+
+// endregion: std::sync
+
+// region: rayon
+
+/// The subset of rayon's parallel-iterator API that a fan-out over a list of paths plausibly
+/// uses, with rayon's `Send`/`Sync` bounds, executed by [`World::par_execute`].
+///
+/// The model is rayon's documented contract for an indexed source: the items are split into
+/// contiguous groups; each group is folded sequentially, in order, through the whole adaptor
+/// chain with its own `init()` value; groups run on any pool thread, in any order, concurrently.
+pub mod par {
+    use super::world;
+    use ::std::{collections::BTreeMap, ops::Range, sync::Mutex};
+
+    pub trait ParallelIterator: Sized + Send + Sync {
+        type Item: Send;
+
+        #[doc(hidden)]
+        fn base_len(&self) -> usize;
+        /// Folds the base items in `range` through the chain, handing results to `sink`.
+        /// `stop` is polled before every base item (rayon's `Folder::full`).
+        #[doc(hidden)]
+        fn run_group(
+            &self,
+            range: Range<usize>,
+            stop: &dyn Fn() -> bool,
+            sink: &mut dyn FnMut(Self::Item),
+        );
+
+        fn map<R: Send, F: Fn(Self::Item) -> R + Sync + Send>(self, f: F) -> Map<Self, F> {
+            Map { base: self, f }
+        }
+        fn map_init<T, R: Send, INIT, F>(self, init: INIT, f: F) -> MapInit<Self, INIT, F>
+        where
+            INIT: Fn() -> T + Sync + Send,
+            F: Fn(&mut T, Self::Item) -> R + Sync + Send,
+        {
+            MapInit {
+                base: self,
+                init,
+                f,
+            }
+        }
+        fn map_with<T, R: Send, F>(self, init: T, f: F) -> MapWith<Self, T, F>
+        where
+            T: Send + Clone + Sync,
+            F: Fn(&mut T, Self::Item) -> R + Sync + Send,
+        {
+            MapWith {
+                base: self,
+                init,
+                f,
+            }
+        }
+        fn filter<P: Fn(&Self::Item) -> bool + Sync + Send>(self, p: P) -> Filter<Self, P> {
+            Filter { base: self, p }
+        }
+        fn filter_map<R: Send, F: Fn(Self::Item) -> Option<R> + Sync + Send>(
+            self,
+            f: F,
+        ) -> FilterMap<Self, F> {
+            FilterMap { base: self, f }
+        }
+        fn inspect<F: Fn(&Self::Item) + Sync + Send>(self, f: F) -> Inspect<Self, F> {
+            Inspect { base: self, f }
+        }
+
+        fn for_each<OP: Fn(Self::Item) + Sync + Send>(self, op: OP) {
+            let never = || false;
+            world().par_execute(self.base_len(), &|range| {
+                self.run_group(range, &never, &mut |item| {
+                    op(item);
+                    world().yield_point("item_done");
+                });
+            });
+        }
+        fn for_each_init<T, INIT, OP>(self, init: INIT, op: OP)
+        where
+            INIT: Fn() -> T + Sync + Send,
+            OP: Fn(&mut T, Self::Item) + Sync + Send,
+        {
+            let never = || false;
+            world().par_execute(self.base_len(), &|range| {
+                let mut state = init();
+                self.run_group(range, &never, &mut |item| {
+                    op(&mut state, item);
+                    world().yield_point("item_done");
+                });
+            });
+        }
+        fn for_each_with<T, OP>(self, init: T, op: OP)
+        where
+            T: Send + Clone + Sync,
+            OP: Fn(&mut T, Self::Item) + Sync + Send,
+        {
+            self.for_each_init(move || init.clone(), op)
+        }
+        /// Like rayon: stops taking new items, everywhere, once any call has failed.
+        fn try_for_each<E: Send, OP: Fn(Self::Item) -> Result<(), E> + Sync + Send>(
+            self,
+            op: OP,
+        ) -> Result<(), E> {
+            let failed: Mutex<Option<E>> = Mutex::new(None);
+            let stop = || failed.lock().unwrap().is_some();
+            world().par_execute(self.base_len(), &|range| {
+                self.run_group(range, &stop, &mut |item| {
+                    if let Err(e) = op(item) {
+                        failed.lock().unwrap().get_or_insert(e);
+                    }
+                    world().yield_point("item_done");
+                });
+            });
+            match failed.into_inner().unwrap() {
+                Some(e) => Err(e),
+                None => Ok(()),
+            }
+        }
+        fn collect<C: FromIterator<Self::Item>>(self) -> C {
+            let groups: Mutex<BTreeMap<usize, Vec<Self::Item>>> = Mutex::new(BTreeMap::new());
+            let never = || false;
+            world().par_execute(self.base_len(), &|range| {
+                let start = range.start;
+                let mut out = Vec::new();
+                self.run_group(range, &never, &mut |item| {
+                    out.push(item);
+                    world().yield_point("item_done");
+                });
+                groups.lock().unwrap().insert(start, out);
+            });
+            groups.into_inner().unwrap().into_values().flatten().collect()
+        }
+        fn count(self) -> usize {
+            self.map(|_| ()).collect::<Vec<()>>().len()
+        }
+        fn any<P: Fn(Self::Item) -> bool + Sync + Send>(self, p: P) -> bool {
+            self.try_for_each(|item| if p(item) { Err(()) } else { Ok(()) })
+                .is_err()
+        }
+        fn all<P: Fn(Self::Item) -> bool + Sync + Send>(self, p: P) -> bool {
+            self.try_for_each(|item| if p(item) { Ok(()) } else { Err(()) })
+                .is_ok()
+        }
+    }
+
+    /// Present so that `use rayon::prelude::*` code naming it keeps compiling.
+    pub trait IndexedParallelIterator: ParallelIterator {}
+    impl<I: ParallelIterator> IndexedParallelIterator for I {}
+
+    pub trait IntoParallelIterator {
+        type Iter: ParallelIterator<Item = Self::Item>;
+        type Item: Send;
+        fn into_par_iter(self) -> Self::Iter;
+    }
+    pub trait IntoParallelRefIterator<'data> {
+        type Iter: ParallelIterator<Item = Self::Item>;
+        type Item: Send + 'data;
+        fn par_iter(&'data self) -> Self::Iter;
+    }
+
+    pub struct VecIter<T>(Vec<Mutex<Option<T>>>);
+    impl<T: Send> ParallelIterator for VecIter<T> {
+        type Item = T;
+        fn base_len(&self) -> usize {
+            self.0.len()
+        }
+        fn run_group(
+            &self,
+            range: Range<usize>,
+            stop: &dyn Fn() -> bool,
+            sink: &mut dyn FnMut(T),
+        ) {
+            for i in range {
+                if stop() {
+                    return;
+                }
+                let item = self.0[i].lock().unwrap().take();
+                sink(item.expect("pasfmt_verif: item handed out twice"));
+            }
+        }
+    }
+    impl<T: Send> IntoParallelIterator for Vec<T> {
+        type Iter = VecIter<T>;
+        type Item = T;
+        fn into_par_iter(self) -> VecIter<T> {
+            VecIter(self.into_iter().map(|t| Mutex::new(Some(t))).collect())
+        }
+    }
+
+    pub struct SliceIter<'data, T>(&'data [T]);
+    impl<'data, T: Sync + 'data> ParallelIterator for SliceIter<'data, T> {
+        type Item = &'data T;
+        fn base_len(&self) -> usize {
+            self.0.len()
+        }
+        fn run_group(
+            &self,
+            range: Range<usize>,
+            stop: &dyn Fn() -> bool,
+            sink: &mut dyn FnMut(&'data T),
+        ) {
+            for i in range {
+                if stop() {
+                    return;
+                }
+                sink(&self.0[i]);
+            }
+        }
+    }
+    impl<'data, T: Sync + 'data> IntoParallelIterator for &'data [T] {
+        type Iter = SliceIter<'data, T>;
+        type Item = &'data T;
+        fn into_par_iter(self) -> SliceIter<'data, T> {
+            SliceIter(self)
+        }
+    }
+    impl<'data, T: Sync + 'data> IntoParallelIterator for &'data Vec<T> {
+        type Iter = SliceIter<'data, T>;
+        type Item = &'data T;
+        fn into_par_iter(self) -> SliceIter<'data, T> {
+            SliceIter(self)
+        }
+    }
+    impl<'data, T: Sync + 'data> IntoParallelRefIterator<'data> for [T] {
+        type Iter = SliceIter<'data, T>;
+        type Item = &'data T;
+        fn par_iter(&'data self) -> SliceIter<'data, T> {
+            SliceIter(self)
+        }
+    }
+    impl<'data, T: Sync + 'data> IntoParallelRefIterator<'data> for Vec<T> {
+        type Iter = SliceIter<'data, T>;
+        type Item = &'data T;
+        fn par_iter(&'data self) -> SliceIter<'data, T> {
+            SliceIter(self)
+        }
+    }
+
+    pub struct Map<I, F> {
+        base: I,
+        f: F,
+    }
+    impl<I: ParallelIterator, R: Send, F: Fn(I::Item) -> R + Sync + Send> ParallelIterator
+        for Map<I, F>
+    {
+        type Item = R;
+        fn base_len(&self) -> usize {
+            self.base.base_len()
+        }
+        fn run_group(
+            &self,
+            range: Range<usize>,
+            stop: &dyn Fn() -> bool,
+            sink: &mut dyn FnMut(R),
+        ) {
+            self.base
+                .run_group(range, stop, &mut |item| sink((self.f)(item)));
+        }
+    }
+
+    pub struct MapInit<I, INIT, F> {
+        base: I,
+        init: INIT,
+        f: F,
+    }
+    impl<I, T, R, INIT, F> ParallelIterator for MapInit<I, INIT, F>
+    where
+        I: ParallelIterator,
+        R: Send,
+        INIT: Fn() -> T + Sync + Send,
+        F: Fn(&mut T, I::Item) -> R + Sync + Send,
+    {
+        type Item = R;
+        fn base_len(&self) -> usize {
+            self.base.base_len()
+        }
+        fn run_group(
+            &self,
+            range: Range<usize>,
+            stop: &dyn Fn() -> bool,
+            sink: &mut dyn FnMut(R),
+        ) {
+            let mut state = (self.init)();
+            self.base
+                .run_group(range, stop, &mut |item| sink((self.f)(&mut state, item)));
+        }
+    }
+
+    pub struct MapWith<I, T, F> {
+        base: I,
+        init: T,
+        f: F,
+    }
+    impl<I, T, R, F> ParallelIterator for MapWith<I, T, F>
+    where
+        I: ParallelIterator,
+        T: Send + Clone + Sync,
+        R: Send,
+        F: Fn(&mut T, I::Item) -> R + Sync + Send,
+    {
+        type Item = R;
+        fn base_len(&self) -> usize {
+            self.base.base_len()
+        }
+        fn run_group(
+            &self,
+            range: Range<usize>,
+            stop: &dyn Fn() -> bool,
+            sink: &mut dyn FnMut(R),
+        ) {
+            let mut state = self.init.clone();
+            self.base
+                .run_group(range, stop, &mut |item| sink((self.f)(&mut state, item)));
+        }
+    }
+
+    pub struct Filter<I, P> {
+        base: I,
+        p: P,
+    }
+    impl<I: ParallelIterator, P: Fn(&I::Item) -> bool + Sync + Send> ParallelIterator
+        for Filter<I, P>
+    {
+        type Item = I::Item;
+        fn base_len(&self) -> usize {
+            self.base.base_len()
+        }
+        fn run_group(
+            &self,
+            range: Range<usize>,
+            stop: &dyn Fn() -> bool,
+            sink: &mut dyn FnMut(I::Item),
+        ) {
+            self.base.run_group(range, stop, &mut |item| {
+                if (self.p)(&item) {
+                    sink(item)
+                }
+            });
+        }
+    }
+
+    pub struct FilterMap<I, F> {
+        base: I,
+        f: F,
+    }
+    impl<I: ParallelIterator, R: Send, F: Fn(I::Item) -> Option<R> + Sync + Send>
+        ParallelIterator for FilterMap<I, F>
+    {
+        type Item = R;
+        fn base_len(&self) -> usize {
+            self.base.base_len()
+        }
+        fn run_group(
+            &self,
+            range: Range<usize>,
+            stop: &dyn Fn() -> bool,
+            sink: &mut dyn FnMut(R),
+        ) {
+            self.base.run_group(range, stop, &mut |item| {
+                if let Some(r) = (self.f)(item) {
+                    sink(r)
+                }
+            });
+        }
+    }
+
+    pub struct Inspect<I, F> {
+        base: I,
+        f: F,
+    }
+    impl<I: ParallelIterator, F: Fn(&I::Item) + Sync + Send> ParallelIterator for Inspect<I, F> {
+        type Item = I::Item;
+        fn base_len(&self) -> usize {
+            self.base.base_len()
+        }
+        fn run_group(
+            &self,
+            range: Range<usize>,
+            stop: &dyn Fn() -> bool,
+            sink: &mut dyn FnMut(I::Item),
+        ) {
+            self.base.run_group(range, stop, &mut |item| {
+                (self.f)(&item);
+                sink(item)
+            });
+        }
+    }
+}
+
+// endregion: rayon
+
+/// The module tree that `file_formatter.rs` sees under the names `std` and `rayon`.
+pub mod shadow {
+    pub mod std {
+        pub use ::std::*;
+
+        pub mod fs {
+            pub use crate::verif_seam::{
+                canonicalize, copy, metadata, read, read_to_string, remove_file, rename, write,
+                File, Metadata, OpenOptions,
+            };
+            pub use ::std::fs::*;
+        }
+        pub mod io {
+            pub use crate::verif_seam::{
+                stdin, stdout, IsTerminal, Stdin, StdinLock, Stdout, StdoutLock,
+            };
+            pub use ::std::io::*;
+        }
+        pub mod sync {
+            pub use crate::verif_seam::sync::{Mutex, RwLock};
+            pub use ::std::sync::*;
+        }
+    }
+    pub mod rayon {
+        pub mod prelude {
+            pub use crate::verif_seam::par::{
+                IndexedParallelIterator, IntoParallelIterator, IntoParallelRefIterator,
+                ParallelIterator,
+            };
+        }
+        pub mod iter {
+            pub use crate::verif_seam::par::*;
+        }
+    }
+}
